@@ -123,5 +123,5 @@ Print Assumptions c20_rows_complete.
 Theorem c20_guards_as_in_source : forall s,
   sv_guarded s = guarded_in_table s
   /\ (sv_declares s = true -> decl_guard_in_table s = [["NAME_NONEMPTY"]]%string).
-Proof. intro s. split; [apply sv_guarded_table | apply decl_guard_table]. Qed.
+Proof. exact guards_as_in_source. Qed.
 Print Assumptions c20_guards_as_in_source.
